@@ -96,6 +96,25 @@ def handleT03 (toks : List String) : String :=
     | _, _, _, _, _, _ => "bad-request"
   | _ => "bad-request"
 
+/-- `K03 mi fuel keys n words…` → as `T03`, for sessions with control keys typed while the terminal
+is in raw mode.  Model line: the terminal path on the events decoded from the typed bytes.
+Specification line (`C03.terminal_process_eq_pipe_process`): the pipe path on `pipeBytes` of those
+events — present when the theorem makes the two lines literally equal: no Ctrl+C among the events
+and the terminal run is not left waiting for a key (there the pipe run ends with status 1). -/
+def handleK03 (toks : List String) : String :=
+  match toks with
+  | mi :: fuel :: keys :: n :: ws =>
+    match parseHex mi, parseHex fuel, parseText keys, parseHex n, parseWords ws with
+    | some mi, some fuel, some keyText, some n, some ws =>
+      if ws.length != n then "bad-request" else
+      let evs := eventsOfTyped keyText
+      let t := TermRun.runAssembled false (mi != 0) fuel "t.asm".toList (some 0x3000#16) ws evs
+      let viaPipe := showProc (runAssembled false (mi != 0) fuel "t.asm".toList (some 0x3000#16) ws (Term.pipeBytes evs))
+      let waiting := match t with | .blocked => true | _ => false
+      "M " ++ showTProc t ++ (if decide (Term.NoCtrlC evs) && !waiting then " ;; S " ++ viaPipe else "")
+    | _, _, _, _, _ => "bad-request"
+  | _ => "bad-request"
+
 end Lace.Driver
 
 namespace Lace.Driver
